@@ -8,7 +8,7 @@ RULE = ('mask() over signatures of U({a,b,c},3) x n in 0..len+2 x every duplicat
         'the keyword-passable names + a foreign name x hide_* flag sets (quick: U({a,b},2) exhaustive + 260 seeded '
         'signatures, one random flag set per case; thorough: all 1972 signatures, all 16 flag sets for <=1 name); '
         'the monitor compares acc(result) with acc(sig) shifted by the masked arguments, re-runs every permutation '
-        'of the names, checks mask(sig,0)==sig, mask(mask(sig,n),m)==mask(sig,n+m) and the hide_* rules. '
+        'of the names, checks mask(sig,0)==sig, mask(mask(sig,n),m)==mask(sig,n+m) and the hide_* rules (structure, soundness, same returns/raises outcome as without flags); a name listed twice must raise. '
         'Non-trivial: every evaluated mask call; distinct by (sig, n, names, flags).')
 ASSUMPTIONS = ['names naming a positional-only parameter are excluded (stated)',
                'with hide_* flags the outcome (returns / raises) must be that of the same mask without flags, except that under hide_args naming a positional-or-keyword parameter counts as a duplicate (the hidden *other may fill it)',
